@@ -241,6 +241,8 @@ def check(case, res):
 def run(tier):
     t0 = time.time()
     res = explore(PROP + "-" + tier, gen_factory(tier), check, chunk=100, deadline=t0 + 900)
+    from ..core import explore_gcc
+    res.merge(explore_gcc(PROP + "-" + tier, gen_factory(tier), check, chunk=100, deadline=t0 + 1200))
     rule = ("all pairs of {true,false,null} x provenance (constant, typed constructor, variable, undefined-type variable, function result, "
             "table element, tuple item, result of not/comparison) for and && or || xor, not/!; every expression printed once and three more "
             "times by the same node inside a loop; pairs of expressions in one loop body; if/elsif/while conditions; relational operators "
